@@ -1636,6 +1636,11 @@ static void run_script(void)
       } else if (chdir(p) < 0) r = -errno;
       fprintf(L, "{\"%s\":%d}\n", t, r);
       free(p);
+    } else if (!strcmp(t, "RMCWD")) {
+      // enter a fresh directory and remove it: getcwd() fails with ENOENT from here on
+      int r = 0;
+      if (mkdir("gone", 0755) < 0 || chdir("gone") < 0 || rmdir("../gone") < 0) r = -errno;
+      fprintf(L, "{\"RMCWD\":%d}\n", r);
     } else if (!strcmp(t, "CWDPAD")) {
       // CWDPAD n : create and enter nested directories until getcwd() is exactly n bytes long
       long target = nextlong(0);
